@@ -26,6 +26,15 @@ package main
 // held earlier are inconsistent. A consistent exchange inside a sequence must succeed and store the session the
 // replies determine. Result: the results of the exchanges, " | " between them.
 //
+// A tag ending in `+after`: the SERVER keeps talking after the client gave the exchange up. A tag ending in `+req` /
+// `+retry`: the CLIENT side of the aftermath - the application goes on using the object whose key exchange failed
+// (hsPlan.After): it issues a request through MakeRequest (+req), or calls CreateConnection a second time - the replay
+// server plays its script again on the new connection, which cannot fit the fresh nonce - and then issues a request
+// (+retry). The calls run on goroutines of their own (they may block or fail); the server answers nothing any more
+// and logs, for a bounded time, every frame the client writes: none may be an encrypted message (auth_key_id != 0) -
+// no exchange has confirmed a key -, nothing may be stored, the client may not be in encrypted mode. The result line
+// is that of the exchange (the frames up to the return of CreateConnection); what comes later is the oracle's.
+//
 // Judge: hsJudgeReplies decides from the protocol description whether the reply sequence is
 // consistent; if not, the client must have returned an error (no panic, no hang, no success), stored
 // no session, left `encrypted` off and sent no encrypted frame.
@@ -205,6 +214,30 @@ func (b *c07Base) emit(g *G, tag string, r [3][]byte, tags ...string) {
 		}
 	}
 	g.Emit(c07Op(tag, &b.c.D, &b.c.S.Key.PublicKey, p, q, r), tags...)
+	consistent := false
+	for _, t := range tags {
+		consistent = consistent || t == "consistent"
+	}
+	if !consistent {
+		// the same fault, and the APPLICATION goes on with the object: for every class of fault (the part of the tag
+		// before the colon: the reply and field, hence the step at which the exchange is abandoned) the first
+		// occurrence of the run is followed by a request, the second by a retry and a request; later ones now and then
+		cls := strings.SplitN(tag, ":", 2)[0]
+		n := c07AfterCount[cls]
+		c07AfterCount[cls]++
+		mode := ""
+		switch {
+		case n == 0:
+			mode = "req"
+		case n == 1:
+			mode = "retry"
+		case g.R.Intn(12) == 0:
+			mode = []string{"req", "retry"}[g.R.Intn(2)]
+		}
+		if mode != "" {
+			g.Emit(c07Op(tag+"+"+mode, &b.c.D, &b.c.S.Key.PublicKey, p, q, r), append(append([]string{}, tags...), "client-aftermath", "client-aftermath:"+mode)...)
+		}
+	}
 	if tag != "none" && g.R.Intn(10) == 0 {
 		// the same fault, and the server keeps talking after the client gave the exchange up (unencrypted
 		// new_session_created and bad_server_salt): still nothing may be stored
@@ -247,6 +280,9 @@ func (b *c07Base) offering(fps ...uint64) [3][]byte {
 	rr[0] = hsResPQ(b.c.D.Nonce, b.c.S.ServerNonce, b.c.S.pqBytes(), fps)
 	return rr
 }
+
+// c07AfterCount: per class of fault, how many operations of this run were generated so far
+var c07AfterCount = map[string]int{}
 
 // c07Pool: the server keys of this run, used in turn (consecutive exchanges never use the same key)
 var (
@@ -292,6 +328,7 @@ func c07GenSequences(g *G, r *Rand) {
 func c07Gen(g *G) {
 	r := g.R
 	c07Pool = hsKeyPool(r, g.N(3, 4))
+	c07AfterCount = map[string]int{}
 	key := c07Pool[0]
 	c07GenSequences(g, r)
 	rounds := g.N(2, 32)
@@ -688,7 +725,14 @@ func c07Exec(op []string) string {
 	}
 	// a tag ending in "+after": the server keeps talking after the client abandoned the exchange
 	hsAftermath = strings.HasSuffix(op[1], "+after")
-	run := hsExchange(&c.D, &c.Pub, nil, c.R, false)
+	// "+req" / "+retry": the application keeps using the object after the exchange was abandoned
+	after := ""
+	for _, m := range []string{"req", "retry"} {
+		if strings.HasSuffix(op[1], "+"+m) {
+			after = m
+		}
+	}
+	run := hsExchangePlan(&hsPlan{StoreMode: "notfound", D: &c.D, Pub: &c.Pub, Replies: c.R, After: after})
 	hsAftermath = false
 	c07Last = []*hsRun{run}
 	return hsResultLine(run)
@@ -745,8 +789,19 @@ func c07JudgeRun(c *c07Case, run *hsRun, mustAccept bool) []string {
 	if run.Enc {
 		add("inconsistent replies (%s) but the client is in encrypted mode", v.Why)
 	}
-	if len(run.Srv.Enc) != 0 {
-		add("inconsistent replies (%s) but the client sent %d encrypted frame(s)", v.Why, len(run.Srv.Enc))
+	if n := len(run.Srv.Enc); n != 0 && (len(run.After) == 0 || n <= run.EncEarly) {
+		add("inconsistent replies (%s) but the client sent %d encrypted frame(s)", v.Why, n)
+	} else if n > run.EncEarly {
+		add("inconsistent replies (%s), the exchange ended with %s; the application then went on with the same object (%s) and the client wrote %d ENCRYPTED message(s) (the first: auth_key_id %s, %d bytes) although no exchange has confirmed a key (%d encrypted before CreateConnection returned)",
+			v.Why, run.Outcome, strings.Join(run.After, ", "), n-run.EncEarly, hexD(run.Srv.Enc[run.EncEarly][:8]), len(run.Srv.Enc[run.EncEarly]), run.EncEarly)
+	}
+	for _, a := range run.After {
+		if strings.HasPrefix(a, "retry:") && !strings.HasPrefix(a, "retry:err:") {
+			add("inconsistent replies (%s); the second CreateConnection on the same object, answered with the same replies (they cannot fit its fresh nonce), ended with %s, not with an error", v.Why, strings.TrimPrefix(a, "retry:"))
+		}
+	}
+	if run.EncLate && !run.Enc {
+		add("inconsistent replies (%s) and the client is in encrypted mode after the application went on with the object (%s)", v.Why, strings.Join(run.After, ", "))
 	}
 	return bad
 }
